@@ -594,6 +594,12 @@ func ruleR9(c *Ctx) *RuleResult {
 				stB, factsB = Violated, "hand-written JSON whose marshalled pieces do not all come from the receiver's own iterator"
 			}
 		}
+		// a container whose insertion path reorders its storage (the heap: Push sifts with Swap) reloads into the same layout —
+		// and hence pops ties in the same order — only from its physical array: any other permutation of the contents
+		// (e.g. the level-sorted Values()) is a different heap after Push(values...)
+		if stB == Discharged && to.fwd == nil && insertionReorders(p, ct) {
+			stB, factsB = Violated, "the container's insertion path reorders its storage (Swap during Push): only the backing array itself reloads into the same layout; serialising "+factsB+" changes the order in which equal-priority elements come out after a round trip"
+		}
 		r.add(Obligation{Key: "R9b:" + tfk, Rule: "R9b", Clause: clB, Pos: p.FuncPos(to.fn), Status: stB, Facts: factsB})
 		if !kv {
 			r.add(Obligation{Key: "R9d:" + tfk, Rule: "R9d", Clause: clD, Pos: p.FuncPos(to.fn), Status: stD, Facts: factsD})
@@ -967,4 +973,38 @@ func ruleR6(c *Ctx) *RuleResult {
 		}
 	}
 	return r
+}
+
+// insertionReorders: an exported insertion method of the type (transitively, within the type's own methods) calls Swap on a field.
+func insertionReorders(p *Prog, ct *types.Named) bool {
+	ms := methodsOf(p, ct)
+	seen := map[*ssa.Function]bool{}
+	var walk func(fn *ssa.Function) bool
+	walk = func(fn *ssa.Function) bool {
+		if fn == nil || seen[fn] {
+			return false
+		}
+		seen[fn] = true
+		for _, c := range allCalls(fn) {
+			cal := StaticCallee(c.Common())
+			if cal == nil || !p.IsLib(cal) {
+				continue
+			}
+			if cal.Name() == "Swap" && len(c.Common().Args) > 0 {
+				if _, ok := recvField(fn, c.Common().Args[0]); ok {
+					return true
+				}
+			}
+			if recvNamed(cal) == ct.Origin() && walk(cal) {
+				return true
+			}
+		}
+		return false
+	}
+	for name, fn := range ms {
+		if insertionNames[name] && token.IsExported(name) && walk(fn) {
+			return true
+		}
+	}
+	return false
 }
